@@ -174,8 +174,22 @@ func genScenario(t *sim.Tape) *scenario {
 	copy(sc.eta[0][:], t.Bytes(4, "eta"))
 	n := t.Range(3, 8, "nsvc")
 	var ids []types.ServiceID
+	// identifier magnitudes vary (small, 16-bit "surrogate" range, above 0x10FFFF, above 2^31): code that
+	// derives keys or orderings from the identifier must not depend on its size
+	bigIDs := t.Prob(2, 3, "big_ids")
 	for i := 0; i < n; i++ {
-		ids = append(ids, types.ServiceID(200001+i*7))
+		id := types.ServiceID(200001 + i*7)
+		if bigIDs {
+			switch t.Choose(4, "id_class") {
+			case 1:
+				id = types.ServiceID(0xD800 + i*3)
+			case 2:
+				id = types.ServiceID(0x00200001 + i*0x1003)
+			case 3:
+				id = types.ServiceID(0x9C000004 + uint32(i)*0x01000001)
+			}
+		}
+		ids = append(ids, id)
 	}
 	pick := func(label string) types.ServiceID { return ids[t.Choose(n, label)] }
 	sc.manager, sc.desig, sc.registr = pick("manager"), pick("designate"), pick("registrar")
